@@ -35,10 +35,16 @@ def seeded():
         dw='FAIL' if 'FAIL' in c.get('demo_with_change','') else c.get('demo_with_change','?')[:20]
         dwo='PASS' if c.get('demo_without_change','').startswith('ok') else c.get('demo_without_change','?')[:20]
         chk=c.get('checks_against_change','')
-        caught = 'viol=0' not in chk.split('[')[0] if chk else False
-        sig=re.findall(r'\[([^\]]*)\]',chk)
-        sigs=(sig[0].split(';')[0] if sig and sig[0] else '')
-        res=('**caught** — `'+sigs+'`') if caught else '**missed**'
+        ents=re.findall(r'(C\d\d):viol=(\d+)\[([^\]]*)\]',chk)
+        own=[e for e in ents if e[0]==m['property'] and int(e[1])>0]
+        other=[e for e in ents if e[0]!=m['property'] and int(e[1])>0]
+        if own:
+            res='**caught** — `'+own[0][2].split(';')[0]+'`'
+            if other: res+=' (also by '+', '.join(e[0] for e in other)+')'
+        elif other:
+            res='**caught by '+other[0][0]+'** (not by '+m['property']+') — `'+other[0][2].split(';')[0]+'`'
+        else:
+            res='**missed**'
         if m.get('lead_note'): res+=' — '+m['lead_note']
         s=(m.get('summary','')+' — needs: '+m.get('needs_to_manifest','')).replace('|','\\|').replace('\n',' ')
         if len(s)>420: s=s[:417]+'…'
